@@ -51,6 +51,11 @@ CHECKS.update({
    "Twin worlds of one scenario: traced (System.RunUntil with a simulated Logger incl. Reserve/Commit presence and fault plans, or cpualt DisassembleCurrentPC before each Step) and untraced must end with identical registers (both width copies), flags, cycle totals and memory; a third, externally recording pass supplies what each instruction looked like just before it executed, and every trace line is parsed and compared with it using an independently written 65C816 decode table (address, exact bytes for the current widths, mnemonic, operand rendering, branch destination, width-appropriate register values, flag letters).",
    "Dialect tolerances listed in DESIGN §4 C14 / evidence assumptions. Runs where Step panics identically in both worlds are discarded (unclaimed C08). Sampled programs; all 29 addressing modes x 4 width combinations are reached in the quick tier."),
 })
+CHECKS.update({
+ "C18": ("exploration", "4 C18",
+   "The quantifier is over schedules. 2-6 parties, each a real goroutine owning its own instances and running the script of one of the other worlds (System+RunUntil+Logger, bare CPUs of both kinds, emitters, ROM streams, buses, mapper/colour/header loops; identical twins included), are released one at a time by a baton scheduler whose decision points are every seam call and every function entry and loop iteration of library code (instrumented yield sites). Each script first runs alone; then k seeded schedules (switch probability per yield from 0 to 0.5, switches forced after fault events) must make every party reproduce its solo observation digest, and no registered package-level variable may change during the interleaved phase (checked at context switches and at the end) nor during the solo pass of a second party of an already-run role. Violations carry the explicit minimised switch list.",
+   "Serialising scheduler: shows absence of interference at yield points and of writes to package-level state, not absence of same-value races/word tearing (DESIGN §7). Sampled worlds and schedules."),
+})
 PENDING = {p: "check under construction in this round (planned as claimed in DESIGN.md §4 "+p+"); not claimed until its world exists" for p in ["C06","C07","C10","C12","C13","C14","C15","C16","C18"]}
 
 def main():
